@@ -63,24 +63,20 @@ func (q *IndexNotificationQueue) Run() {
 			return
 		case <-gc.C:
 			iter.Consume(q.items.Values(), func(h *heap.Heap[*item]) {
-				l := h.Len()
-				for i := 0; i < l; i++ {
-					elem := h.Slice[i]
-					if elem.ctx.Err() != nil {
-						// Reorder
-						elem.revision = 0
-						elem.waitCh <- elem.ctx.Err()
+				// Answer every waiter whose context ended exactly once and drop it from the heap,
+				// then restore the heap order of the remaining waiters.
+				kept := h.Slice[:0]
+				for _, elem := range h.Slice {
+					if err := elem.ctx.Err(); err != nil {
+						elem.waitCh <- err
+						continue
 					}
+					kept = append(kept, elem)
 				}
-				h.Fix(0)
-				for i := 0; i < l; i++ {
-					elem := h.Peek()
-					if elem.revision == 0 {
-						h.Pop()
-					} else {
-						break
-					}
+				for i := len(kept); i < len(h.Slice); i++ {
+					h.Slice[i] = nil
 				}
+				*h = *heap.New(h.Less, kept...)
 			})
 		case it := <-q.add:
 			h, _ := q.items.Load(it.table)
